@@ -348,6 +348,10 @@ def case_factory(ctx, c, classes):
     SP = [None]      # candidate list handed to the subset problems (None = all taxa in order)
     EX = [{}]        # declared transformations / weights handed through the factory
     MW = numpy.abs(u); TA = Z / 2.0; TF = (u > 0).astype(float)      # sparse absolute effects: zero weights not shared by all traits
+    from pbmon.oracle import relmat
+    from pybrops.popgen.cmat.fcty.DenseGeneralizedWeightedCoancestryMatrixFactory import DenseGeneralizedWeightedCoancestryMatrixFactory as GWF
+    _g2 = ctx.rng("fcty-l2", c)
+    MW2 = numpy.abs(u) + 0.05; AF2 = _g2.uniform(0.05, 0.95, (m, t))     # trait-specific marker weights and target frequencies
     table = {
         "EstimatedBreedingValue": (lambda cl, enc, k: cl.from_bvmat(bvmat=bv, unscale=True, **common(enc, n, k, t, space=SP[0], **EX[0])), lambda cc: -(cc @ raw), "from_bvmat"),
         "GenomicEstimatedBreedingValue": (lambda cl, enc, k: cl.from_gmat_gpmod(gmat=pg, gpmod=mod, unscale=True, **common(enc, n, k, t, space=SP[0], **EX[0])), lambda cc: -(cc @ (Z @ u + beta[0])), "from_gmat_gpmod"),
@@ -361,6 +365,8 @@ def case_factory(ctx, c, classes):
                                     lambda cc: numpy.r_[numpy.sqrt(cc @ K @ cc)], "from_gmat"),
         "L1NormGenomic": (lambda cl, enc, k: cl.from_numpy(mkrwt=MW, tafreq=TA, tfreq=TF, **common(enc, n, k, t, space=SP[0], **EX[0])),
                           lambda cc: numpy.array([numpy.abs(MW[:, i] * (cc @ TA - TF[:, i])).sum() for i in range(t)]), "from_numpy"),
+        "L2NormGenomic": (lambda cl, enc, k: cl.from_gmat(gmat=un, cmatfcty=GWF(), mkrwt=MW2, afreq=AF2, **common(enc, n, k, t, space=SP[0], **EX[0])),
+                          lambda cc: numpy.array([numpy.sqrt(cc @ (0.5 * relmat.gweighted(Z, 2, AF2[:, i], MW2[:, i])[0]) @ cc) for i in range(t)]), "from_gmat"),
         "FamilyEstimatedBreedingValue": (lambda cl, enc, k: cl.from_bvmat(bvmat=bv, **common(enc, n, k, t + len(fams), space=SP[0], **EX[0])),
                                          lambda cc: numpy.r_[-(cc @ bv.mat), -numpy.array([cc[fam_ids == f].sum() for f in fams])], "from_bvmat"),
     }
@@ -372,7 +378,7 @@ def case_factory(ctx, c, classes):
         expected = numpy.asarray(defn(cc), dtype=float)
     except Exception:
         return
-    tolK = fam in ("OptimalContribution", "MeanExpectedHeterozygosity", "MeanGenomicRelationship")   # documented jitter on the kinship diagonal (<= 1e-6)
+    tolK = fam in ("OptimalContribution", "MeanExpectedHeterozygosity", "MeanGenomicRelationship", "L2NormGenomic")   # documented jitter on the kinship diagonal (<= 1e-6)
     for enc in ENCS:
         cname = fam + enc + "SelectionProblem"
         if cname not in classes:
